@@ -114,6 +114,60 @@ def run(ctx):
                   "a character inside a comment can still make the line an error (%s)" % [f.loc(x) for x in bad], f.loc(b, i))
     ctx.floor("C14.3", "transitions into the comment state", n_c, 1)
 
+    # ---------------------------------------------------------------- C14.2 (text -> mapping): the address stored is the
+    # address as parsed - its family is read off the parsed value itself, nothing converts it in between
+    def projection_base(e):
+        while e[0] in ("field", "downcast", "ref", "deref"):
+            e = e[1]
+        return e
+    hd = [f_ for k_, f_ in prog.fns.items() if k_.endswith("Hosts>::deserialise") and k_.startswith(HD)]
+    if len(hd) != 1:
+        raise A.mir.AnchorMissing("Hosts::deserialise not found")
+    hd = hd[0]
+    hdr = A.Resolver(hd)
+    n_ins = 0
+    for b, t in A.call_blocks(hd, A.name_endswith("HashMap::<K, V, S, A>::insert")):
+        e = hdr.call_expr(t, b)
+        fam_field = A.last_field(e[2][0])
+        if fam_field not in ("v4", "v6"):
+            continue
+        n_ins += 1
+        val = A.peel(A.deep_payload(e[2][2]))
+        okv = val[0] == "field" and val[1][0] == "downcast" and val[1][2] == {"v4": "V4", "v6": "V6"}[fam_field]
+        base = projection_base(val[1][1]) if okv else ("?",)
+        if base[0] == "call" and (base[4] or "").endswith("Try::branch") and base[2]:
+            base = projection_base(base[2][0])
+        okb = base[0] == "call" and base[1] == HD + "parse_line"
+        ctx.check(okv and okb, "C14.2", "deserialise:address-as-parsed:" + fam_field, "%s gets the %s payload of the address parse_line returned" % (fam_field, {"v4": "V4", "v6": "V6"}[fam_field]),
+                  "the address stored in %s is %s" % (fam_field, A.show(e[2][2])[:120]), hd.loc(b))
+    ctx.floor("C14.2", "inserts into v4 / v6 in Hosts::deserialise", n_ins, 2)
+    pl_ = prog.fn(HD + "parse_line")
+    plr_ = A.Resolver(pl_)
+    n_addr = 0
+    for b, e in A.return_exprs(pl_, plr_):
+        pe = A.peel(e)
+        if pe[0] != "agg" or pe[2] != "Ok":
+            continue
+        v = A.peel(dict(pe[3])["0"])
+        if v[0] != "agg" or v[2] != "Some":
+            continue
+        tup = A.peel(dict(v[3])["0"])
+        if tup[0] != "tuple":
+            continue
+        addr = A.peel(tup[1][0])
+        alts = addr[1] if addr[0] == "phi" else [addr]
+        for a in alts:
+            a = A.peel(a)
+            if a[0] == "agg" and all(A.peel(x)[0] == "const" for _, x in a[3]):
+                continue                     # the placeholder the variable is initialised with
+            n_addr += 1
+            base = projection_base(a)
+            okp = a[0] == "field" and a[1][0] == "downcast" and a[1][2] == "Ok" and base[0] == "call" and \
+                (base[1].endswith("FromStr for std::net::IpAddr>::from_str") or (base[1].endswith("<impl str>::parse") and "IpAddr" in A.show(base)))
+            ctx.check(okp, "C14.2", "parse_line:address-as-parsed", "the address returned is the Ok value of parsing the address token as an IpAddr",
+                      "the address returned is %s" % A.show(a)[:120], pl_.loc(b))
+    ctx.floor("C14.2", "address sources in parse_line", n_addr, 1)
+
     # ---------------------------------------------------------------- C14.2 / C14.5
     fz = prog.find("<impl std::convert::From<dns_types::hosts::types::Hosts> for dns_types::zones::types::Zone>::from")
     fzr = A.Resolver(fz)
